@@ -845,4 +845,440 @@ theorem pivot_value (E : Env K) (thr : K) (bm : Synphot.Tree K) (xb yb : List K)
   simp only [pivot, hxb, hyb, ok_bind', e1, e2]
   split_ifs <;> rfl
 
+/-- the standard spectrum's band integral, with the bandpass samples it was formed from -/
+theorem integrateTrapz_flat' (E : Env K) (hP : E.P.Pos) (u : FluxUnit K) (hu : IsLinearDensity u) (hup : u.Pos)
+    (a : K) (ha : 0 ≤ a) (bm : Synphot.Tree K) (xb : List K) (sd : K)
+    (hband : ∀ x v, 0 < x → bm.eval E x = .ok v → 0 ≤ v)
+    (h : integrateTrapz E (.bin .mul (.leaf (.constFlux a u)) bm) xb = .ok sd) :
+    ∃ yb, validateWavelengths xb = .ok () ∧ sampleTree E bm xb = .ok yb ∧
+      sd = |trapz ((xb.zip yb).map fun p => (p.1, flatPhotlam E.P u a p.1 * p.2))| := by
+  obtain ⟨ys, hv, hys, _⟩ := integrateTrapz_ok h
+  obtain ⟨yb, hyb, _⟩ := mapM_map2_ok (eval_flat_prod E u hu a bm) xb ys hys
+  exact ⟨yb, hv, hyb, integrateTrapz_flat E hP u hu hup a ha bm xb yb sd hyb
+    (samples_nonneg E bm xb yb hv hyb hband) h⟩
+
+/-- the source's band integral for non-negative source × band: `|Σ F P|` on the grid `w` -/
+theorem integrateTrapz_nonneg_src (E : Env K) (m : Synphot.Tree K) (w : List K) (tot : K)
+    (hsrc : ∀ x v, 0 < x → m.eval E x = .ok v → 0 ≤ v) (h : integrateTrapz E m w = .ok tot) :
+    ∃ yp, validateWavelengths w = .ok () ∧ sampleTree E m w = .ok yp ∧ tot = |trapz (w.zip yp)| := by
+  obtain ⟨yp, hv, hyp, ht⟩ := integrateTrapz_ok h
+  refine ⟨yp, hv, hyp, ?_⟩
+  rw [ht, map_abs_of_nonneg yp (samples_nonneg E m w yp hv hyp hsrc)]
+  rfl
+
+theorem sqrt_zero' {T : Transc K} (hT : T.Lawful) : T.sqrt 0 = 0 := by
+  have := hT.sqrt_mul_self 0 (le_refl 0)
+  exact mul_self_eq_zero.mp this
+
+/-! ### 13. the call returns when its pieces succeed -/
+
+theorem normalizeScalar_of_pieces {E : Env K} {P : OverlapPar K} {s' band : Spec K} {target : K} {u : FluxUnit K}
+    {wl : Option (List K)} {area : Option K} {vega : Option (Synphot.Tree K)} {sm bm : Synphot.Tree K} {total std : K}
+    (h1 : s'.model = .ok sm) (h2 : band.model = .ok bm)
+    (h3 : normalizeIntegrals E P sm bm u wl area vega = .ok (total, std)) (hpos : 0 < total)
+    (hq : u.isMag = true → 0 < total / std) :
+    normalizeScalar E P s' band target u wl area vega = .ok (factorValue E.T u target total std) := by
+  unfold normalizeScalar factorValue
+  simp only [h1, h2, h3, ok_bind', validateTotalflux_of_pos hpos]
+  by_cases hu : u.isMag = true
+  · simp only [hu, if_true, if_neg (not_le.mpr (hq hu))]; rfl
+  · simp only [hu, if_false, Bool.false_eq_true]; rfl
+
+theorem normalizeFactor_of_pieces {E : Env K} {P : OverlapPar K} {self band : Spec K} {target : K} {u : FluxUnit K}
+    {wl : Option (List K)} {force : Bool} {area : Option K} {vega : Option (Synphot.Tree K)}
+    {s' : Spec K} {wn : Bool} {sm bm : Synphot.Tree K} {total std : K}
+    (hadm : normalizeAdmit E P self band wl force = .ok (s', wn))
+    (h1 : s'.model = .ok sm) (h2 : band.model = .ok bm)
+    (h3 : normalizeIntegrals E P sm bm u wl area vega = .ok (total, std)) (hpos : 0 < total)
+    (hq : u.isMag = true → 0 < total / std) :
+    normalizeFactor E P self band target u wl force area vega = .ok (factorValue E.T u target total std, s', wn) := by
+  rw [normalizeFactor_eq, hadm]
+  simp only [ok_bind', normalizeScalar_of_pieces h1 h2 h3 hpos hq]
+  rfl
+
+/-! ### 14. a concrete call for the non-vacuity examples -/
+
+namespace Witness
+
+/-- a box bandpass of height 1 on `[1, 5]`, sampled at 2 and 4 -/
+def bandTree : Synphot.Tree K := .leaf (.box 1 3 4 (some [2, 4]))
+/-- a source flat at `c` PHOTLAM (no sampling set of its own) -/
+def flatTree (c : K) : Synphot.Tree K := .leaf (.const1 c)
+def band : Spec K := Spec.ofTree .bandpass bandTree
+def src (c : K) : Spec K := Spec.ofTree .source (flatTree c)
+def par : OverlapPar K := ⟨0, 0, 1 / 100⟩
+/-- constants all equal to 1 -/
+def phys : PhysConst K := ⟨1, 1, 1, 1, 1⟩
+def env (T : Transc K) : Env K := ⟨phys, T⟩
+theorem phys_pos : (phys : PhysConst K).Pos := ⟨one_pos, one_pos, one_pos, one_pos, one_pos⟩
+
+theorem band_model : (band : Spec K).model = .ok bandTree := rfl
+theorem src_model (c : K) : (src c).model = .ok (flatTree c) := ofTree_model _ _
+
+theorem valid24 : validateWavelengths ([2, 4] : List K) = .ok () := by
+  rw [validate_ok_iff]
+  refine ⟨?_, Or.inl ?_⟩
+  · intro x hx; simp only [List.mem_cons, List.not_mem_nil, or_false] at hx
+    rcases hx with rfl | rfl <;> norm_num
+  · exact ⟨by norm_num, trivial⟩
+
+/-- a source without a sampling set overlaps every bandpass fully -/
+theorem overlap_full (E : Env K) (c : K) : checkOverlap E par band (src c) none = .ok .full := by
+  simp [checkOverlap, band_model, src_model, flatTree, Synphot.Tree.waveset, Synphot.Tree.sampleset, Leaf.sampleset,
+    bind, Except.bind, pure, Except.pure]
+
+theorem admitOk (E : Env K) (c : K) (force : Bool) : normalizeAdmit E par (src c) band none force = .ok (src c, false) := by
+  have hk : (band : Spec K).kind = .bandpass := rfl
+  simp [normalizeAdmit, hk, overlap_full, bind, Except.bind, pure, Except.pure]
+
+/-- anything without a sampling set × the box is sampled on the box's grid -/
+theorem grid_of (thr : K) (m : Synphot.Tree K) (hm : m.sampleset thr = none) :
+    wavelengthsOr thr (.bin .mul m bandTree) none = .ok [2, 4] := by
+  simp only [wavelengthsOr, wavesetOrErr, Synphot.Tree.waveset, Synphot.Tree.sampleset, hm, bandTree, Leaf.sampleset,
+    mergeWavelengths, valid24, bind, Except.bind, pure, Except.pure]
+
+theorem band_grid (thr : K) : wavelengthsOr thr (bandTree : Synphot.Tree K) none = .ok [2, 4] := by
+  simp only [wavelengthsOr, wavesetOrErr, Synphot.Tree.waveset, Synphot.Tree.sampleset, bandTree, Leaf.sampleset,
+    valid24, bind, Except.bind, pure, Except.pure]
+
+theorem band_eval (E : Env K) (x : K) (h : 1 ≤ x ∧ x ≤ 5) : (bandTree : Synphot.Tree K).eval E x = .ok 1 := by
+  have : (3 : K) - 4 / 2 ≤ x ∧ x ≤ 3 + 4 / 2 := by constructor <;> [linarith [h.1]; linarith [h.2]]
+  simp only [bandTree, Synphot.Tree.eval, Leaf.eval, if_pos this]
+
+theorem band_nonneg (E : Env K) : ∀ x v, 0 < x → (bandTree : Synphot.Tree K).eval E x = .ok v → 0 ≤ v := by
+  intro x v _ h
+  simp only [bandTree, Synphot.Tree.eval, Leaf.eval] at h
+  injection h with h; subst h; split_ifs <;> norm_num
+
+theorem band_samples (E : Env K) : sampleTree E (bandTree : Synphot.Tree K) [2, 4] = .ok [1, 1] := by
+  simp only [sampleTree, List.mapM_cons, List.mapM_nil, band_eval E 2 (by constructor <;> norm_num),
+    band_eval E 4 (by constructor <;> norm_num), bind, Except.bind, pure, Except.pure]
+
+/-- samples of `m × box` where `m` evaluates to `f` -/
+theorem prod_samples (E : Env K) (m : Synphot.Tree K) (f : K → K) (hm : ∀ x, m.eval E x = .ok (f x)) :
+    sampleTree E (.bin .mul m bandTree) [2, 4] = .ok [f 2 * 1, f 4 * 1] := by
+  simp only [sampleTree, List.mapM_cons, List.mapM_nil, Synphot.Tree.eval, hm, band_eval E 2 (by constructor <;> norm_num),
+    band_eval E 4 (by constructor <;> norm_num), BinOp.apply, bind, Except.bind, pure, Except.pure]
+
+theorem prod_integral (E : Env K) (m : Synphot.Tree K) (f : K → K) (hm : ∀ x, m.eval E x = .ok (f x)) :
+    integrateTrapz E (.bin .mul m bandTree) [2, 4] = .ok |(|f 2| + |f 4|)| := by
+  simp only [integrateTrapz, valid24, prod_samples E m f hm, ok_bind', pure, Except.pure, trapzXY, List.map_cons,
+    List.map_nil, List.zip_cons_cons, List.zip_nil_right, trapz, mul_one]
+  congr 2; ring
+
+theorem flat_eval (E : Env K) (c x : K) : (flatTree c).eval E x = .ok c := rfl
+
+theorem prod_nonneg (E : Env K) (c : K) (hc : 0 ≤ c) :
+    ∀ x v, 0 < x → (Synphot.Tree.bin .mul (flatTree c) bandTree).eval E x = .ok v → 0 ≤ v := by
+  intro x v hx h
+  obtain ⟨a, b, ha, hb, hv⟩ := eval_bin_ok h
+  rw [flat_eval] at ha; injection ha with ha; subst ha
+  have := band_nonneg E x b hx hb
+  rw [apply_ok_mul hv]; exact mul_nonneg hc this
+
+/-- the density integrals of the witness call: `total = 2|c|`, `std = |flat(2)| + |flat(4)|` -/
+theorem integrals_density (T : Transc K) (c : K) (u : FluxUnit K) (hu : u ≠ .count) (hu' : u ≠ .obmag)
+    (area : Option K) (vega : Option (Synphot.Tree K)) (a0 : K) (u0 : FluxUnit K)
+    (hstd : stdTreeOf (env T) u vega = .ok (.leaf (.constFlux a0 u0))) (hu0 : IsLinearDensity u0) :
+    normalizeIntegrals (env T) par (flatTree c) bandTree u none area vega =
+      .ok (|(|c| + |c|)|, |(|flatPhotlam phys u0 a0 2| + |flatPhotlam phys u0 a0 4|)|) := by
+  rw [normalizeIntegrals_density _ _ _ _ _ _ _ _ hu hu', grid_of _ _ rfl]
+  simp only [ok_bind', prod_integral (env T) (flatTree c) (fun _ => c) (flat_eval (env T) c), hstd,
+    grid_of par.mergeThr (.leaf (.constFlux a0 u0)) rfl,
+    prod_integral (env T) (.leaf (.constFlux a0 u0)) (flatPhotlam phys u0 a0) (constFlux_eval (env T) u0 hu0 a0)]
+  rfl
+
+theorem integrals_vega (T : Transc K) (c v : K) (area : Option K) :
+    normalizeIntegrals (env T) par (flatTree c) bandTree .vegamag none area (some (flatTree v)) =
+      .ok (|(|c| + |c|)|, |(|v| + |v|)|) := by
+  rw [normalizeIntegrals_density _ _ _ _ _ _ _ _ (by intro h; cases h) (by intro h; cases h), grid_of _ _ rfl]
+  simp only [ok_bind', prod_integral (env T) (flatTree c) (fun _ => c) (flat_eval (env T) c), stdTreeOf, pure_bind,
+    grid_of par.mergeThr (flatTree v) rfl,
+    prod_integral (env T) (flatTree v) (fun _ => v) (flat_eval (env T) v)]
+  rfl
+
+theorem binEdges24 : binEdges ([2, 4] : List K) = .ok [1, 3, 5] := by
+  simp only [binEdges, mids, List.getLastD, List.getLast?, List.cons_append, List.nil_append]
+  norm_num
+
+/-- count factors of the grid `[2, 4]`: bin widths 2, 2 -/
+theorem count_samples (T : Transc K) (f : List K) (hf : f.length = 2) (a : K) :
+    convertFlux phys T [2, 4] f .photlam .count (some a) none = .ok (mulFactors f [2 * a, 2 * a]) := by
+  have := convertFlux_count phys T [2, 4] f [1, 3, 5] [2, 2] a valid24 binEdges24
+    (by simp only [binWidths, absDiffs]; norm_num) rfl (by simpa using hf.symm)
+  simpa using this
+
+theorem integrals_count (T : Transc K) (c a : K) (u : FluxUnit K) (hu : u = .count ∨ u = .obmag)
+    (vega : Option (Synphot.Tree K)) :
+    normalizeIntegrals (env T) par (flatTree c) bandTree u none (some a) vega = .ok (c * 1 * (2 * a) + (c * 1 * (2 * a) + 0), 1) := by
+  rw [normalizeIntegrals_count _ _ _ _ _ _ _ _ hu, grid_of _ _ rfl]
+  simp only [ok_bind', prod_samples (env T) (flatTree c) (fun _ => c) (flat_eval (env T) c)]
+  show (convertFlux phys T [2, 4] [c * 1, c * 1] .photlam .count (some a) none >>= _) = _
+  rw [count_samples T _ rfl a]
+  rfl
+
+/-- the observation of (source · k) × box -/
+def obs (c k : K) : Obs K :=
+  { src := src c, band := band, model := .bin .mul (.scale (flatTree c) k) bandTree,
+    warned := false, bins := ⟨[], [], [], [], [], [], []⟩ }
+
+/-- the pivot of the box on its grid: `∫λP = 6`, `∫P/λ = 3/4` -/
+theorem pivot_val (T : Transc K) (thr : K) : pivot (env T) thr bandTree none = .ok (T.sqrt |6 / (3 / 4)|) := by
+  rw [pivot_value (env T) thr bandTree [2, 4] [1, 1] (band_grid thr) (band_samples _)]
+  simp only [List.zip_cons_cons, List.zip_nil_right, List.map_cons, List.map_nil, trapz]
+  norm_num
+  rfl
+
+end Witness
+namespace Witness
+
+/-- a tabulated source on `[3, 4]` only (value 2): covers half of the box's sampled range -/
+def tabSrc : Spec K := Spec.ofTree .source (.leaf (.table ⟨[3, 4], [2, 2], false, true⟩))
+
+theorem tabSrc_model : (tabSrc : Spec K).model = .ok (.leaf (.table ⟨[3, 4], [2, 2], false, true⟩)) := ofTree_model _ _
+
+theorem valid34 : validateWavelengths ([3, 4] : List K) = .ok () := by
+  rw [validate_ok_iff]
+  refine ⟨?_, Or.inl ?_⟩
+  · intro x hx; simp only [List.mem_cons, List.not_mem_nil, or_false] at hx
+    rcases hx with rfl | rfl <;> norm_num
+  · exact ⟨by norm_num, trivial⟩
+
+theorem valid23 : validateWavelengths ([2, 3] : List K) = .ok () := by
+  rw [validate_ok_iff]
+  refine ⟨?_, Or.inl ?_⟩
+  · intro x hx; simp only [List.mem_cons, List.not_mem_nil, or_false] at hx
+    rcases hx with rfl | rfl <;> norm_num
+  · exact ⟨by norm_num, trivial⟩
+
+theorem band_samples23 (E : Env K) : sampleTree E (bandTree : Synphot.Tree K) [2, 3] = .ok [1, 1] := by
+  simp only [sampleTree, List.mapM_cons, List.mapM_nil, band_eval E 2 (by constructor <;> norm_num),
+    band_eval E 3 (by constructor <;> norm_num), bind, Except.bind, pure, Except.pure]
+
+/-- half of the box's throughput lies outside the table: `partial_notmost` -/
+theorem overlap_partial (E : Env K) : checkOverlap E par band tabSrc none = .ok .partialNotMost := by
+  have h1 : integrateTrapz E (bandTree : Synphot.Tree K) [2, 4] = .ok 2 := by
+    simp only [integrateTrapz, valid24, band_samples, ok_bind', pure, Except.pure, trapzXY, List.map_cons, List.map_nil,
+      List.zip_cons_cons, List.zip_nil_right, trapz]
+    norm_num
+  have h2 : integrateTrapz E (bandTree : Synphot.Tree K) [2, 3] = .ok 1 := by
+    simp only [integrateTrapz, valid23, band_samples23, ok_bind', pure, Except.pure, trapzXY, List.map_cons, List.map_nil,
+      List.zip_cons_cons, List.zip_nil_right, trapz]
+    norm_num
+  have hw : wavesetOrErr (par : OverlapPar K).mergeThr (bandTree : Synphot.Tree K) = .ok [2, 4] := band_grid _
+  have hws : wavesetOrErr (par : OverlapPar K).mergeThr (Synphot.Tree.leaf (.table (⟨[3, 4], [2, 2], false, true⟩ : Table K))) = .ok [3, 4] := by
+    simp only [wavesetOrErr, Synphot.Tree.waveset, Synphot.Tree.sampleset, Leaf.sampleset, valid34, bind, Except.bind, pure,
+      Except.pure]
+  have hwt : Synphot.Tree.waveset (par : OverlapPar K).mergeThr (bandTree : Synphot.Tree K) = .ok (some [2, 4]) := by
+    simp only [Synphot.Tree.waveset, Synphot.Tree.sampleset, bandTree, Leaf.sampleset, valid24, bind, Except.bind, pure,
+      Except.pure]
+  have hwst : Synphot.Tree.waveset (par : OverlapPar K).mergeThr
+      (Synphot.Tree.leaf (.table (⟨[3, 4], [2, 2], false, true⟩ : Table K))) = .ok (some [3, 4]) := by
+    simp only [Synphot.Tree.waveset, Synphot.Tree.sampleset, Leaf.sampleset, valid34, bind, Except.bind, pure,
+      Except.pure]
+  have hmin24 : min (2 : K) 4 = 2 := min_eq_left (by norm_num)
+  have hmax24 : max (2 : K) 4 = 4 := max_eq_right (by norm_num)
+  have hmin34 : min (3 : K) 4 = 3 := min_eq_left (by norm_num)
+  have hmax34 : max (3 : K) 4 = 4 := max_eq_right (by norm_num)
+  have hst : overlapStatus (2 : K) 4 3 4 = .part := by
+    simp only [overlapStatus]; norm_num
+  have hends : sampleTree E (Synphot.Tree.leaf (.table (⟨[3, 4], [2, 2], false, true⟩ : Table K))) [2, 4] = .ok [2, 2] := by
+    simp only [sampleTree, List.mapM_cons, List.mapM_nil, Synphot.Tree.eval, Leaf.eval, Table.eval, List.headD, List.getLastD,
+      List.getLast?, interpAsc, bind, Except.bind, pure, Except.pure]
+    norm_num
+  simp only [checkOverlap, band_model, tabSrc_model, ok_bind', Option.isNone_none, if_true, hwt, hwst, hw, hws,
+    Option.isNone_some, Bool.false_eq_true, if_false, band_samples, List.zip_cons_cons, List.zip_nil_right,
+    gt_iff_lt, one_pos, decide_true, List.filter_cons_of_pos, List.filter_nil, List.map_cons, List.map_nil,
+    listMin, listMax, List.foldl_cons, List.foldl_nil, hmin24, hmax24, hmin34, hmax34, hst, List.head?_cons,
+    List.getLast?, hends, Synphot.Tree.rootTable?, Table.isTapered, endsZero]
+  have h20 : ¬ ((2 : K) = 0) := by norm_num
+  have h23 : (2 : K) < 3 := by norm_num
+  have h44 : ¬ ((4 : K) < 4) := lt_irrefl _
+  simp only [List.getLast_cons_cons, List.getLast_singleton, hends, ok_bind', h20, decide_false, Bool.false_and,
+    Bool.false_eq_true, false_and, if_false, h1, validateTotalflux_of_pos (two_pos : (0 : K) < 2), h23, if_true, h2, h44,
+    pure_bind, gradeVerdict, par]
+  norm_num
+
+end Witness
+/-! ### 15. a non-negative bandpass on a monotone grid: `∫P/λ ≠ 0 → ∫λP ≠ 0` -/
+
+/-- weakly descending abscissae -/
+def DescX : List (K × K) → Prop
+  | p :: q :: t => q.1 ≤ p.1 ∧ DescX (q :: t)
+  | _ => True
+
+theorem ascX_zip : ∀ (x y : List K), StrictAsc x → AscX (x.zip y) := by
+  intro x
+  induction x with
+  | nil => intro y _; trivial
+  | cons a x ih =>
+    intro y h
+    cases y with
+    | nil => trivial
+    | cons c y =>
+      cases x with
+      | nil => trivial
+      | cons b x =>
+        cases y with
+        | nil => trivial
+        | cons d y => exact ⟨le_of_lt h.1, ih (d :: y) h.2⟩
+
+theorem descX_zip : ∀ (x y : List K), StrictDesc x → DescX (x.zip y) := by
+  intro x
+  induction x with
+  | nil => intro y _; trivial
+  | cons a x ih =>
+    intro y h
+    cases y with
+    | nil => trivial
+    | cons c y =>
+      cases x with
+      | nil => trivial
+      | cons b x =>
+        cases y with
+        | nil => trivial
+        | cons d y => exact ⟨le_of_lt h.1, ih (d :: y) h.2⟩
+
+theorem ascX_map (f : K × K → K) : ∀ (l : List (K × K)), AscX l → AscX (l.map fun p => (p.1, f p)) := by
+  intro l
+  induction l with
+  | nil => intro _; trivial
+  | cons a l ih =>
+    intro h
+    cases l with
+    | nil => trivial
+    | cons b l => exact ⟨h.1, ih h.2⟩
+
+theorem trapz_nonpos_desc (l : List (K × K)) (hx : DescX l) (hy : ∀ p ∈ l, 0 ≤ p.2) : trapz l ≤ 0 := by
+  induction l with
+  | nil => simp
+  | cons a l ih =>
+    cases l with
+    | nil => simp
+    | cons b l =>
+      obtain ⟨hab, hx'⟩ := hx
+      rw [trapz_cons_cons]
+      have h1 : (b.1 - a.1) * (a.2 + b.2) / 2 ≤ 0 := by
+        have := hy a (by simp); have := hy b (by simp)
+        have : (b.1 - a.1) * (a.2 + b.2) ≤ 0 := mul_nonpos_of_nonpos_of_nonneg (sub_nonpos.mpr hab) (by linarith)
+        linarith
+      have := ih hx' (fun p hp => hy p (List.mem_cons_of_mem _ hp))
+      linarith
+
+theorem descX_map (f : K × K → K) : ∀ (l : List (K × K)), DescX l → DescX (l.map fun p => (p.1, f p)) := by
+  intro l
+  induction l with
+  | nil => intro _; trivial
+  | cons a l ih =>
+    intro h
+    cases l with
+    | nil => trivial
+    | cons b l => exact ⟨h.1, ih h.2⟩
+
+private theorem term_zero_transfer (d fa fb ga gb : K) (hfa : 0 ≤ fa) (hfb : 0 ≤ fb)
+    (ha : fa = 0 ↔ ga = 0) (hb : fb = 0 ↔ gb = 0) (h : d * (fa + fb) / 2 = 0) : d * (ga + gb) / 2 = 0 := by
+  have h' : d * (fa + fb) = 0 := by linarith
+  rcases mul_eq_zero.mp h' with hd | hs
+  · rw [hd]; ring
+  · have h1 : fa = 0 := by linarith
+    have h2 : fb = 0 := by linarith
+    rw [ha.mp h1, hb.mp h2]; ring
+
+/-- on a monotone grid, two non-negative weightings with the same zeros vanish together -/
+theorem trapz_zero_transfer_asc (f g : K × K → K) (l : List (K × K)) (hx : AscX l)
+    (hf : ∀ p ∈ l, 0 ≤ f p) (hfg : ∀ p ∈ l, f p = 0 ↔ g p = 0)
+    (h : trapz (l.map fun p => (p.1, f p)) = 0) : trapz (l.map fun p => (p.1, g p)) = 0 := by
+  induction l with
+  | nil => simp
+  | cons a l ih =>
+    cases l with
+    | nil => simp
+    | cons b l =>
+      obtain ⟨hab, hx'⟩ := hx
+      simp only [List.map_cons, trapz_cons_cons] at h ⊢
+      have hfa := hf a (by simp); have hfb := hf b (by simp)
+      have hterm : 0 ≤ (b.1 - a.1) * (f a + f b) / 2 := by
+        have : 0 ≤ (b.1 - a.1) * (f a + f b) := mul_nonneg (sub_nonneg.mpr hab) (by linarith)
+        linarith
+      have htail : 0 ≤ trapz ((b :: l).map fun p => (p.1, f p)) :=
+        trapz_nonneg _ (ascX_map f _ hx') (by
+          intro p hp; simp only [List.mem_map] at hp; obtain ⟨q, hq, rfl⟩ := hp
+          exact hf q (List.mem_cons_of_mem _ hq))
+      simp only [List.map_cons] at htail
+      have e1 : (b.1 - a.1) * (f a + f b) / 2 = 0 := by linarith
+      have e2 : trapz ((b.1, f b) :: l.map fun p => (p.1, f p)) = 0 := by linarith
+      have i1 := term_zero_transfer (b.1 - a.1) (f a) (f b) (g a) (g b) hfa hfb (hfg a (by simp)) (hfg b (by simp)) e1
+      have i2 := ih hx' (fun p hp => hf p (List.mem_cons_of_mem _ hp)) (fun p hp => hfg p (List.mem_cons_of_mem _ hp))
+        (by simpa only [List.map_cons] using e2)
+      simp only [List.map_cons] at i2
+      rw [i1, i2]; ring
+
+theorem trapz_zero_transfer_desc (f g : K × K → K) (l : List (K × K)) (hx : DescX l)
+    (hf : ∀ p ∈ l, 0 ≤ f p) (hfg : ∀ p ∈ l, f p = 0 ↔ g p = 0)
+    (h : trapz (l.map fun p => (p.1, f p)) = 0) : trapz (l.map fun p => (p.1, g p)) = 0 := by
+  induction l with
+  | nil => simp
+  | cons a l ih =>
+    cases l with
+    | nil => simp
+    | cons b l =>
+      obtain ⟨hab, hx'⟩ := hx
+      simp only [List.map_cons, trapz_cons_cons] at h ⊢
+      have hfa := hf a (by simp); have hfb := hf b (by simp)
+      have hterm : (b.1 - a.1) * (f a + f b) / 2 ≤ 0 := by
+        have : (b.1 - a.1) * (f a + f b) ≤ 0 := mul_nonpos_of_nonpos_of_nonneg (sub_nonpos.mpr hab) (by linarith)
+        linarith
+      have htail : trapz ((b :: l).map fun p => (p.1, f p)) ≤ 0 :=
+        trapz_nonpos_desc _ (descX_map f _ hx') (by
+          intro p hp; simp only [List.mem_map] at hp; obtain ⟨q, hq, rfl⟩ := hp
+          exact hf q (List.mem_cons_of_mem _ hq))
+      simp only [List.map_cons] at htail
+      have e1 : (b.1 - a.1) * (f a + f b) / 2 = 0 := by linarith
+      have e2 : trapz ((b.1, f b) :: l.map fun p => (p.1, f p)) = 0 := by linarith
+      have i1 := term_zero_transfer (b.1 - a.1) (f a) (f b) (g a) (g b) hfa hfb (hfg a (by simp)) (hfg b (by simp)) e1
+      have i2 := ih hx' (fun p hp => hf p (List.mem_cons_of_mem _ hp)) (fun p hp => hfg p (List.mem_cons_of_mem _ hp))
+        (by simpa only [List.map_cons] using e2)
+      simp only [List.map_cons] at i2
+      rw [i1, i2]; ring
+
+/-- a non-negative bandpass sampled on a validated grid: `∫ P/λ ≠ 0` forces `∫ λP ≠ 0` -/
+theorem band_B_ne_zero (xb yb : List K) (hv : validateWavelengths xb = .ok ()) (hnn : ∀ v ∈ yb, 0 ≤ v)
+    (hA : trapz ((xb.zip yb).map fun p => (p.1, p.2 / p.1)) ≠ 0) :
+    trapz ((xb.zip yb).map fun p => (p.1, p.1 * p.2)) ≠ 0 := by
+  obtain ⟨hpos, hmono⟩ := (validate_ok_iff xb).mp hv
+  intro hB
+  apply hA
+  have hf : ∀ p ∈ xb.zip yb, 0 ≤ p.1 * p.2 := fun p hp =>
+    mul_nonneg (hpos p.1 (List.of_mem_zip hp).1).le (hnn p.2 (List.of_mem_zip hp).2)
+  have hfg : ∀ p ∈ xb.zip yb, p.1 * p.2 = 0 ↔ p.2 / p.1 = 0 := by
+    intro p hp
+    have := ne_of_gt (hpos p.1 (List.of_mem_zip hp).1)
+    constructor
+    · intro h; rcases mul_eq_zero.mp h with h | h
+      · exact absurd h this
+      · rw [h, zero_div]
+    · intro h; rcases div_eq_zero_iff.mp h with h | h
+      · rw [h, mul_zero]
+      · exact absurd h this
+  rcases hmono with ha | hd
+  · exact trapz_zero_transfer_asc (fun p => p.1 * p.2) (fun p => p.2 / p.1) _ (ascX_zip xb yb ha) hf hfg hB
+  · exact trapz_zero_transfer_desc (fun p => p.1 * p.2) (fun p => p.2 / p.1) _ (descX_zip xb yb hd) hf hfg hB
+
+/-- … hence a positive pivot wavelength -/
+theorem pivot_pos_of_band (E : Env K) (hT : E.T.Lawful) (thr : K) (bm : Synphot.Tree K) (xb yb : List K)
+    (hxb : wavelengthsOr thr bm none = .ok xb) (hv : validateWavelengths xb = .ok ())
+    (hyb : sampleTree E bm xb = .ok yb) (hnn : ∀ v ∈ yb, 0 ≤ v)
+    (hA : trapz ((xb.zip yb).map fun p => (p.1, p.2 / p.1)) ≠ 0) :
+    ∃ wp, pivot E thr bm none = .ok wp ∧ 0 < wp := by
+  have hB := band_B_ne_zero xb yb hv hnn hA
+  refine ⟨_, pivot_value E thr bm xb yb hxb hyb, ?_⟩
+  rw [if_neg hA]
+  have hq : 0 < |trapz ((xb.zip yb).map fun p => (p.1, p.1 * p.2)) /
+      trapz ((xb.zip yb).map fun p => (p.1, p.2 / p.1))| := abs_pos.mpr (div_ne_zero hB hA)
+  have hsq := hT.sqrt_mul_self _ hq.le
+  rcases (hT.sqrt_nonneg |trapz ((xb.zip yb).map fun p => (p.1, p.1 * p.2)) /
+      trapz ((xb.zip yb).map fun p => (p.1, p.2 / p.1))|).lt_or_eq with h | h
+  · exact h
+  · rw [← h] at hsq; simp at hsq; exact absurd hsq.symm (ne_of_gt hq)
+
 end Synphot.C10x
